@@ -12,7 +12,7 @@
     Qubits are identities ([qid]); a tket gate returns the qubit it received on the same
     port (that is the meaning of the tket ops and is TRUSTED, as are their matrices).
     No proofs in this file. *)
-From Coq Require Import List String Bool ZArith Floats.
+From Coq Require Import List String Bool ZArith PrimFloat.
 Import ListNotations.
 Open Scope string_scope.
 
